@@ -69,7 +69,7 @@ def motor_si(sc):
 
 def motor_law(m, w, D):
     """documented characteristic: (torque, current or None); None for torque when the statement leaves it open (on the boundary)"""
-    if m['i0'] is None:
+    if m['i0'] is None or m['imax'] is None:
         return m['Tmax'] * (1 - w / m['w0']), None
     pmin = m['i0'] / m['imax']
     if abs(abs(D) - pmin) <= 1e-12:
@@ -523,6 +523,9 @@ def c12_check(sc, rng):
     T1 = ['TimeInterval', dt[1] * k1, dt[2]]
     dt2 = ['TimeInterval', dt[1] * f1 / f2, u2]
     T2 = ['TimeInterval', dt2[1] * (n - k1), u2]
+    if rng.random() < 0.5:                       # ... and the continuation's simulation time in yet another unit than its step
+        u3 = rng.choice([x for x in S.units('Time') if x != u2])
+        T2 = ['TimeInterval', T2[1] * f2 / S.ffactor('Time', u3), u3]
     Tall = ['TimeInterval', dt[1] * n, dt[2]]
     a = dict(base, ops=pre + [['run', dt, Tall, ctl, None]])
     b = dict(base, ops=pre + [['run', dt, T1, ctl, None], ['run', dt2, T2, ctl, None]])
